@@ -1866,7 +1866,9 @@ func (bc *Blockchain) AddBlock(block *block.Block) error {
 			// contain both sides of a conflict.
 			if mp.HasConflicts(tx, bc) {
 				err = fmt.Errorf("%w: conflicts with another transaction of the block", ErrHasConflicts)
-			} else if bc.memPool.ContainsKey(tx.Hash()) {
+			} else if ptx, ok := bc.memPool.TryGetValue(tx.Hash()); ok && mempool.SameWitnesses(ptx, tx) {
+				// Only exactly the pooled transaction is known to be valid,
+				// the hash does not cover witnesses.
 				err = mp.Add(tx, bc)
 				if err == nil {
 					continue
